@@ -35,6 +35,11 @@ def instances(tier, seed):
     add("atoms:CH->CF:M2:fraction", pattern='CH->CF', N=5, M=2, fraction='sym', cost=40)
     add("atoms:CH->nothing:M2:fraction", pattern='CH->nothing', N=4, M=2, fraction='sym', cost=20)
     add("atoms:CH->CF:M0", pattern='CH->CF', N=3, M=0, cost=1)
+    add("atoms:CH->NOO:M1:no-pair-tables", pattern='CH->NOO', N=4, M=1, s_pair=False, p_pair=False, cost=10)
+    # end to end (real find, no stub) under a symbolic translation: counts, bystanders, inserted atoms in the matched frame
+    add("e2e:S2:chiral4->big:triclinic", family='e2e', struct='S2', repl='chiral4->big', axes=[1], other=(0.5, 0, 0.9), charges=True, cost=60)
+    add("e2e:S5:pair->FO:triclinic", family='e2e', struct='S5', repl='pair->FO', axes=[0], other=(0, 0.8, 0.3), charges=True, cost=60)
+    add("e2e:S1:chiral4->CHSP", family='e2e', struct='S1', repl='chiral4->CHSP', axes=[2], other=(0.9, 0.1, 0), charges=True, cost=30)
     add("atoms:CH->CF:M1:fraction", pattern='CH->CF', N=3, M=1, fraction='sym', cost=5)
     if tier == 'thorough':
         add("atoms:CH->CF:M3:fraction", pattern='CH->CF', N=6, M=3, fraction='sym', cost=600)
@@ -46,6 +51,14 @@ def instances(tier, seed):
 
 
 def body(ctx, p):
+    if p.get('family') == 'e2e':
+        from harness import replace_e2e
+        R = replace_e2e.run_e2e(ctx, p)
+        info = replace_e2e.check_placement(ctx, p, R)
+        if info is not None:
+            replace_e2e.check_bystanders(ctx, p, R)
+        replace_e2e.check_patterns_untouched(ctx, R)
+        return
     R = run_replace(ctx, p)
     with core.nosimplify():
         check_atoms(ctx, p, R)
@@ -112,7 +125,4 @@ SELFTESTS = [
     dict(name='structure-not-copied', quick=True,
          mutate=[('mofun.mofun', "new_structure = structure.copy()", "new_structure = structure")],
          instance=dict(family='replace-atoms', pattern='CH->CF', N=4, M=1)),
-    dict(name='count-of-found-not-replaced',
-         mutate=[('mofun.mofun', "return new_structure, len(match_indices)", "return new_structure, len(match_positions)")],
-         instance=dict(family='replace-atoms', pattern='CH->nothing', N=4, M=2, fraction='sym')),
 ]
